@@ -1,12 +1,150 @@
-import QG.Model.Optimizer
-import QG.Model.Binary
-/-! # C02 (stage-1 placeholder; the property theorems follow) -/
-namespace QG.C02
-open QG.Model.Optimizer
+import QG.Spec.GateAlgebra
+import QG.Lemmas.OptimizerRuns
+import QG.Lemmas.OptimizerSnippet
+import QG.Lemmas.OptimizerRegroup
 
-/-- the constructor rejects levels outside 0..4 -/
-theorem optimize_level_out_of_range {M2 M4 : Type} (ops : MatOps M2 M4) (level : Int) (nq : Nat)
-    (raw : List (Raw M2 M4)) (h : level > 4 ∨ level < 0) : optimize ops level nq raw = .error .value := by
+/-!
+# C02 — gate fusion never changes what a gate list computes
+
+Property theorems only.  Model: `QG/Model/Optimizer.lean`, `QG/Model/Binary.lean` (the code after the
+repairs D1-D3); interface: `QG/Spec/GateAlgebra.lean`; helper lemmas: `QG/Lemmas/Optimizer*.lean`.
+
+`S : GateAlgebra ops n Op` is *any* interpretation of one- and two-qubit matrices as elements of a
+monoid of `n`-qubit operators that satisfies the gate-algebra laws (`QG.Spec.Register` is the
+concrete one: matrices over a commutative semiring, numpy's index convention).  `S.sem l` is the
+product of the embeddings of the items of `l` in list order.  `WFList n l`: every qubit `< n`, the two
+qubits of a two-qubit item distinct — adjacent or not, ascending or not.
+-/
+namespace QG.C02
+open QG.Model.Optimizer QG.Spec QG.Spec.GateAlgebra QG.Lemmas.Optimizer
+
+variable {M2 M4 Op : Type} [Monoid Op] {ops : MatOps M2 M4} {n : Nat}
+
+/-! ### the four levels and `process_snippet` -/
+
+/-- level 1 (merging runs of one-qubit gates on one qubit) preserves the operator -/
+theorem sem_level1 (S : GateAlgebra ops n Op) (l : List (Item M2 M4)) (h : WFList n l) :
+    S.sem (level1 ops l) = S.sem l := level1_sem S l h
+
+/-- after level 1, adjacent one-qubit items act on different qubits (the precondition of level 2) -/
+theorem level1_no_adjacent_same (l : List (Item M2 M4)) : NoAdjSame (level1 ops l) :=
+  level1_noAdjSame l
+
+/-- `process_snippet` preserves the operator of every well-formed snippet (a two-qubit gate on a pair
+of distinct qubits, any one-qubit gates in front, at most two behind which act on different
+qubits) -/
+theorem sem_process_snippet (S : GateAlgebra ops n Op) (s : Snippet M2 M4) (h : WFSnippet n s) :
+    S.sem (processSnippet ops s) = S.sem s.items := processSnippet_sem S s h
+
+/-- level 2 never raises and preserves the operator, **provided** adjacent one-qubit items act on
+different qubits (`hadj`; established by level 1, discharged in `optimize_sem`) -/
+theorem sem_level2 (S : GateAlgebra ops n Op) (l : List (Item M2 M4)) (h : WFList n l)
+    (hadj : NoAdjSame l) :
+    ∃ l', level2 ops l = .ok l' ∧ S.sem l' = S.sem l ∧ l'.length ≤ l.length ∧ WFList n l' :=
+  level2_spec S l h hadj
+
+/-- level 3 (merging runs of two-qubit gates on the same ordered pair) preserves the operator -/
+theorem sem_level3 (S : GateAlgebra ops n Op) (l : List (Item M2 M4)) (h : WFList n l) :
+    S.sem (level3 ops l) = S.sem l := level3_sem S l h
+
+/-- level 4 (regrouping the trailing one-qubit gates per qubit) never raises on a non-empty
+well-formed list and preserves the operator; `nq = len(qubit_list)` must cover the qubits -/
+theorem sem_level4 (S : GateAlgebra ops n Op) (nq : Nat) (hnq : n ≤ nq) (l : List (Item M2 M4))
+    (h : WFList n l) (hne : l ≠ []) :
+    ∃ l', level4 ops nq l = .ok l' ∧ S.sem l' = S.sem l ∧ l'.length ≤ l.length ∧ WFList n l' :=
+  level4_spec S nq hnq l h hne
+
+/-! ### `Optimizer(level, items, qubit_list).optimize()` -/
+
+/-- **C02, optimizer.**  For every level `0..4`, every qubit count, every `qubit_list` at least as long
+as the register and every well-formed list (one-qubit items given as `[q]` or `[q,-1]`), the model of
+`optimize` does not raise, and returns a well-formed list that computes the same operator and is not
+longer. -/
+theorem optimize_sem (S : GateAlgebra ops n Op) (level : Int) (h0 : 0 ≤ level) (h4 : level ≤ 4)
+    (nq : Nat) (hnq : n ≤ nq) (raw : List (Raw M2 M4)) (hwf : WFList n (raw.map normalize)) :
+    ∃ l', optimize ops level nq raw = .ok l' ∧ S.sem l' = S.sem (raw.map normalize) ∧
+      l'.length ≤ raw.length ∧ WFList n l' := by
+  have hlvl : ¬ (level > 4 ∨ level < 0) := by omega
+  set gl := raw.map normalize with hgl
+  have hlen : gl.length = raw.length := by simp [hgl]
+  have h1s := level1_sem S gl hwf
+  have h1w : WFList n (level1 ops gl) := level1_wf gl hwf
+  have h1l := level1_length_le (ops := ops) gl
+  obtain ⟨l2, h2, h2s, h2l, h2w⟩ := level2_spec S (level1 ops gl) h1w (level1_noAdjSame gl)
+  have h3s := level3_sem S l2 h2w
+  have h3w : WFList n (level3 ops l2) := level3_wf l2 h2w
+  have h3l := level3_length_le (ops := ops) l2
+  unfold optimize
+  simp only [hlvl, if_false, ← hgl]
+  by_cases c : raw.length ≤ 2 ∨ nq = 1
+  · have hl0 : (if raw.length ≤ 2 then (0 : Int) else if nq = 1 then 0 else level) = 0 := by
+      rcases c with c | c
+      · simp [c]
+      · simp [c]
+    simp only [hl0, if_true]
+    exact ⟨gl, rfl, rfl, by omega, hwf⟩
+  · have c1 : ¬ raw.length ≤ 2 := fun h => c (Or.inl h)
+    have c2 : ¬ nq = 1 := fun h => c (Or.inr h)
+    have hl : (if raw.length ≤ 2 then (0 : Int) else if nq = 1 then 0 else level) = level := by
+      simp [c1, c2]
+    simp only [hl]
+    split_ifs with d0 d1 d2 d3
+    · exact ⟨gl, rfl, rfl, by omega, hwf⟩
+    · exact ⟨_, rfl, h1s, by omega, h1w⟩
+    · exact ⟨l2, h2, by rw [h2s, h1s], by omega, h2w⟩
+    · simp only [h2]
+      exact ⟨_, rfl, by rw [h3s, h2s, h1s], by omega, h3w⟩
+    · simp only [h2]
+      have hne : level3 ops l2 ≠ [] := by
+        apply level3_ne_nil
+        apply level2_ne_nil _ _ h2
+        apply level1_ne_nil
+        intro hnil
+        have hr : raw.length = 0 := by rw [← hlen, hnil]; rfl
+        omega
+      obtain ⟨l4, h4', h4s, h4l, h4w⟩ := level4_spec S nq hnq (level3 ops l2) h3w hne
+      exact ⟨l4, h4', by rw [h4s, h3s, h2s, h1s], by omega, h4w⟩
+
+/-- outside `0..4` the constructor raises `ValueError` -/
+theorem optimize_level_out_of_range (level : Int) (nq : Nat) (raw : List (Raw M2 M4))
+    (h : level > 4 ∨ level < 0) : optimize ops level nq raw = .error .value := by
   simp [optimize, h]
+
+/-- lists of at most two items and one-qubit layouts are returned unchanged (after rewriting `[q,-1]`) -/
+theorem optimize_clamp (level : Int) (h0 : 0 ≤ level) (h4 : level ≤ 4) (nq : Nat) (raw : List (Raw M2 M4))
+    (h : raw.length ≤ 2 ∨ nq = 1) : optimize ops level nq raw = .ok (raw.map normalize) := by
+  have hlvl : ¬ (level > 4 ∨ level < 0) := by omega
+  unfold optimize
+  rcases h with h | h <;> simp [hlvl, h]
+
+/-! ### non-vacuity -/
+
+/-- the list that currently fails on the pinned tree (D2) is well-formed for three qubits -/
+example (A B : M2) (G : M4) : WFList 3 [Item.one A 0, Item.two G 1 0, Item.one B 2] := by
+  simp [WFList, WFItem]
+
+/-- … and so are a list without two-qubit gates that leaves qubit 0 idle (D3) and a trailing run on
+one qubit (D1), with `[q,-1]` forms -/
+example (A B C : M2) :
+    WFList 3 ([Raw.single A 1, Raw.padded B 2, Raw.single C 1].map (normalize (M4 := M4))) := by
+  simp [WFList, WFItem, QG.Model.Optimizer.normalize]
+example (A B C : M2) :
+    WFList 1 ([Raw.single A 0, Raw.padded B 0, Raw.single C 0].map (normalize (M4 := M4))) := by
+  simp [WFList, WFItem, QG.Model.Optimizer.normalize]
+
+/-- a well-formed snippet with gates on both sides, reversed pair -/
+example (A B C D : M2) (G : M4) :
+    WFSnippet 3 (⟨[⟨A, 0⟩, ⟨B, 2⟩], G, 2, 0, [⟨C, 1⟩, ⟨D, 2⟩]⟩ : Snippet M2 M4) :=
+  ⟨by simp, by simp, by simp, by simp, by simp, by
+    intro a1 a2 h
+    simp only [List.cons.injEq, and_true] at h
+    obtain ⟨rfl, rfl⟩ := h
+    simp⟩
+
+/-- `NoAdjSame` holds for a list with equal qubits that are not adjacent, fails for adjacent ones -/
+example (A B : M2) (G : M4) : NoAdjSame [Item.one A 0, Item.two G 0 1, Item.one B 0] := by
+  simp [NoAdjSame, oneQ]
+example (A B : M2) : ¬ NoAdjSame ([Item.one A 0, Item.one B 0] : List (Item M2 M4)) := by
+  simp [NoAdjSame, oneQ]
 
 end QG.C02
